@@ -473,7 +473,13 @@ def atheris_external(tier: str, seed: int, shard: int, nshards: int):
     env = dict(os.environ)
     cmd = [sys.executable, "-m", "harness.fuzz_c20", str(outp), "-runs=300000", f"-seed={seed * 1000 + shard + 1}", "-max_len=600",
            str(corpus)]
-    r = subprocess.run(cmd, cwd=str(root), env=env, capture_output=True, text=True, timeout=900)
+    def lift_limits() -> None:  # libFuzzer reserves a large address range; it has its own rss limit
+        import resource
+
+        _soft, hard = resource.getrlimit(resource.RLIMIT_AS)
+        resource.setrlimit(resource.RLIMIT_AS, (hard, hard))
+
+    r = subprocess.run(cmd, cwd=str(root), env=env, capture_output=True, text=True, timeout=900, preexec_fn=lift_limits)
     res = {"evaluations": 0, "samples": [], "nontrivial_cases": [], "errors": [], "classes": {}}
     if outp.exists():
         d = json.loads(outp.read_text())
